@@ -240,7 +240,7 @@ public:
     QList<QXmppDiscoveryIq::Item> items;
     QXmppDataForm form;
     QString queryNode;
-    QXmppDiscoveryIq::QueryType queryType;
+    QXmppDiscoveryIq::QueryType queryType = QXmppDiscoveryIq::InfoQuery;
 };
 
 ///
